@@ -30,7 +30,7 @@ struct Reply {
 }
 
 #[derive(Default)]
-struct Shared {
+pub(crate) struct Shared {
     frames: Mutex<Vec<Vec<u8>>>,
     replies_sent: Mutex<Vec<Vec<u8>>>,
     reply: Mutex<Reply>,
@@ -57,7 +57,7 @@ impl Shared {
         self.replies_sent.lock().unwrap().push(out.clone());
         Some(out)
     }
-    fn take_frames(&self) -> Vec<Vec<u8>> {
+    pub(crate) fn take_frames(&self) -> Vec<Vec<u8>> {
         std::mem::take(&mut *self.frames.lock().unwrap())
     }
     fn wait_frames(&self, n: usize) -> bool {
@@ -73,7 +73,7 @@ impl Shared {
 }
 
 /// Raw TCP capture peer: splits the byte stream on the declared lengths only (spec oracle), records every frame verbatim.
-fn tcp_capture() -> (SocketAddr, Arc<Shared>) {
+pub(crate) fn tcp_capture() -> (SocketAddr, Arc<Shared>) {
     let l = TcpListener::bind("127.0.0.1:0").expect("bind");
     let addr = l.local_addr().unwrap();
     let sh = Arc::new(Shared::default());
@@ -148,7 +148,7 @@ impl serde::Serialize for BadBody {
 }
 
 /// Raw WebSocket capture peer: every binary message is recorded verbatim.
-async fn ws_capture() -> (SocketAddr, Arc<Shared>) {
+pub(crate) async fn ws_capture() -> (SocketAddr, Arc<Shared>) {
     let l = tokio::net::TcpListener::bind("127.0.0.1:0").await.expect("bind");
     let addr = l.local_addr().unwrap();
     let sh = Arc::new(Shared::default());
